@@ -165,19 +165,45 @@ def rect_static_dirichlet_sides(x, y, a, b, Ttop, nmax=4001):
     return out
 
 
+def rectangle_declared_sides(solver):
+    """What the module docstring of the solver declares for the sides x=0, x=a (the documentation is the oracle's source;
+    it is read, not assumed, so that a correction of the text is followed): 'flux' or 'temperature'."""
+    import re
+    import sys
+    doc = " ".join((sys.modules[type(solver).__module__].__doc__ or "").split())
+    m = re.search(r"sides of the rectangle([^.]*)\.", doc)
+    sent = m.group(1).lower() if m else ""
+    if "flux" in sent:
+        return "flux"
+    if "temperature" in sent:
+        return "temperature"
+    return "flux"
+
+
 def build_Rectangle(cfg, solver):
     """rectangle.py docstring: bottom at zero temperature, top at Ttop, *zero heat flux through the sides*, zero
-    initial temperature.  The static solution of that problem is Ttop*y/b."""
+    initial temperature.  The static solution of that problem is Ttop*y/b.  (If the docstring is corrected to declare
+    sides held at zero temperature, that problem -- static solution = the textbook sine/sinh series -- is the oracle.)"""
     a, b, Ttop, kap = float(cfg["a"]), float(cfg["b"]), float(cfg["Ttop"]), float(cfg["kappa"])
+    sides = rectangle_declared_sides(solver)
+    dirichlet = lambda P: rect_static_dirichlet_sides(P[0], P[1], a, b, Ttop)
     faces = [dict(name="y=0", axis=1, side="lo", a=1.0, b=0.0, g=0.0),
-             dict(name="y=b", axis=1, side="hi", a=1.0, b=0.0, g=Ttop),
-             dict(name="x=0", axis=0, side="lo", a=0.0, b=1.0, g=0.0, alt=dict(a=1.0, b=0.0, g=0.0, tag="sides_held_at_zero_T")),
-             dict(name="x=a", axis=0, side="hi", a=0.0, b=1.0, g=0.0, alt=dict(a=1.0, b=0.0, g=0.0, tag="sides_held_at_zero_T"))]
+             dict(name="y=b", axis=1, side="hi", a=1.0, b=0.0, g=Ttop)]
+    if sides == "flux":
+        alt = dict(a=1.0, b=0.0, g=0.0, tag="sides_held_at_zero_T")
+        faces += [dict(name="x=0", axis=0, side="lo", a=0.0, b=1.0, g=0.0, alt=alt),
+                  dict(name="x=a", axis=0, side="hi", a=0.0, b=1.0, g=0.0, alt=alt)]
+        steady = lambda P: Ttop * P[1] / b
+    else:
+        faces += [dict(name="x=0", axis=0, side="lo", a=1.0, b=0.0, g=0.0),
+                  dict(name="x=a", axis=0, side="hi", a=1.0, b=0.0, g=0.0)]
+        steady = dirichlet
     Lm = min(a, b)
     p = Problem("Rectangle", cfg, solver, "xy", [0.0, 0.0], [a, b], kap, Lm * Lm / kap, faces,
-                lambda P: 0.0 * P[0], lambda P: Ttop * P[1] / b, abs(Ttop), nsum=("Nsum",),
-                tags={"sinh_overflow": int((int(cfg["Nsum"]) - 1) * math.pi * b / a > 709.0)})
-    p.steady_alt = (lambda P: rect_static_dirichlet_sides(P[0], P[1], a, b, Ttop), "sides_held_at_zero_T")
+                lambda P: 0.0 * P[0], steady, abs(Ttop), nsum=("Nsum",),
+                tags={"declared_sides": sides, "sinh_overflow": int((int(cfg["Nsum"]) - 1) * math.pi * b / a > 709.0)})
+    if sides == "flux":
+        p.steady_alt = (dirichlet, "sides_held_at_zero_T")
     return p
 
 
